@@ -86,7 +86,7 @@ def frame_case(draw, max_rows=300):
             # compute_batch_ranking entry: columns whose values are all numbers are declared numeric (as described sources do)
             'declare_numeric': draw(st.booleans()),
             # --mi_stratified_sampling_ratio below 1 concerns the MI-numba heuristics only (C04); every other heuristic scores all rows
-            'ratio': draw(st.sampled_from([1.0, 1.0, 0.5, 0.3]))}
+            'ratio': draw(st.sampled_from([1.0, 1.0, 0.5, 0.3])), 'ref_json': draw(st.sampled_from([False, False, False, True]))}
     if style == 'wide':
         case['pairwise'] = True
         case['heuristic'] = draw(st.sampled_from(['max-value-coverage', 'MI-numba-randomized', 'MI-numba-3mr', 'correlation-Pearson']))
@@ -216,7 +216,24 @@ def oracle(case, rec):
     if h == 'AMI' and len(cols[0]) > 400:
         h = 'MI'
     ratio = float(case.get('ratio', 1.0)) if 'numba' not in h else 1.0
-    args = stubs.make_args(heuristic=h, target_ranking_only='False' if case['pairwise'] else 'True', mi_stratified_sampling_ratio=ratio)
+    ref_path = None
+    if 'numba' in h and case.get('ref_json'):
+        # a reference model given next to a non-prior heuristic only adds context (the feature reaches the estimator as an (n, 1) block)
+        import json as _json
+        import tempfile as _tempfile
+        fd, ref_path = _tempfile.mkstemp(prefix='c05-ref-', suffix='.json')
+        with os.fdopen(fd, 'w') as fh:
+            _json.dump({'desc': {'features': [n_ for n_ in names if n_ != 'label'][:1], 'fields': []}}, fh)
+        rec.cls('reference-json-with-numba-heuristic')
+    args = stubs.make_args(heuristic=h, target_ranking_only='False' if case['pairwise'] else 'True', mi_stratified_sampling_ratio=ratio,
+                           reference_model_JSON=ref_path or '')
+    if 'numba' in h and float(case.get('ratio', 1.0)) < 1.0 and ref_path is None:
+        # history: the same process ranked this frame with a sampling ratio below 1 just before; the ratio of THIS call is 1
+        prior = stubs.make_args(heuristic=h, target_ranking_only='False' if case['pairwise'] else 'True',
+                                mi_stratified_sampling_ratio=float(case['ratio']))
+        stubs.reset_globals()
+        mixed_rank_graph(df.copy(), prior, stubs.InlinePool(), stubs.PBar())
+        rec.cls('after-a-call-with-sampling-ratio<1')
     if ratio < 1.0:
         rec.cls('sampling-ratio<1-with-non-numba-heuristic')
     if ncols > 20:
@@ -247,6 +264,8 @@ def oracle(case, rec):
         elif kind_ix == 'gaps':
             df.index = [3 * i + 2 for i in range(nrow)]
         out = mixed_rank_graph(df, args, stubs.InlinePool(), stubs.PBar()).triplet_scores
+    if ref_path:
+        os.unlink(ref_path)
     codes = {n: codes_of(c) for n, c in zip(names, cols)}
     nonconst = sum(1 for c in cols if len(set(c)) > 1)
     rec.nt(nonconst >= 2 and h != 'Constant', key=case)
